@@ -6,6 +6,7 @@ import (
 	"fmt"
 	"github.com/jig/lisp/lisperror"
 	"reflect"
+	"runtime"
 	"strings"
 
 	"github.com/jig/lisp/env"
@@ -34,6 +35,7 @@ const (
 	c20panicLisp // panics with a lisp error itself (re-raising what a lisp callback threw)
 	c20panicInt  // panics with a value that is no error: an int
 	c20panicVec  // ... a lisp vector
+	c20panicRun  // a fault raised by the Go runtime (index out of range)
 )
 
 var c20PanicVec = types.Vector{Val: []types.MalType{1, "two"}}
@@ -84,6 +86,9 @@ func c20enter(idx int, ctx context.Context, fixed []any, rest []any) int {
 		panic(42)
 	case c20panicVec:
 		panic(c20PanicVec)
+	case c20panicRun:
+		var none []int
+		_ = none[c20State.entered+3]
 	}
 	return c20State.mode
 }
@@ -382,20 +387,44 @@ func init() {
 					return
 				}
 				r.NT()
+				// the same legal call made directly on the registered function value under a context that has
+				// already ended (how map, apply, swap! or an embedder reach it after a deadline): the contract
+				// does not depend on the context, the function is entered with that very context
+				if fv, gerr := ns.Get(types.Symbol{Val: name}); gerr == nil {
+					if f, ok := fv.(types.Func); ok {
+						dead, cancel := context.WithCancel(ctx)
+						cancel()
+						c20State.entered, c20State.mode, c20State.args = 0, c20ok, nil
+						var derr error
+						pn := lx.Guard(func() { _, derr = f.Fn(dead, firstLegal) })
+						r.Exec(1)
+						switch {
+						case pn != nil:
+							r.Violation("call under an ended context panics: "+shape(c), pn.String())
+							return
+						case c20State.entered != 1:
+							r.Violation("function not entered although count and types fit (context already ended): "+shape(c), fmt.Sprintf("entered %d times, err=%v", c20State.entered, derr))
+							return
+						case e.Ctx && c20State.marker != any(marker):
+							r.Violation("evaluation context not injected (context already ended): "+shape(c), fmt.Sprint(c20State.marker))
+							return
+						}
+					}
+				}
 				// error / panic modes on one legal call
 				el := []types.MalType{types.Symbol{Val: name}}
 				for _, a := range firstLegal {
 					el = append(el, q(a))
 				}
 				t := reflect.TypeOf(e.Fn)
-				for _, mode := range []int{c20err, c20panicErr, c20panicStr, c20panicWrap, c20errWrap, c20panicLisp, c20panicInt, c20panicVec} {
+				for _, mode := range []int{c20err, c20panicErr, c20panicStr, c20panicWrap, c20errWrap, c20panicLisp, c20panicInt, c20panicVec, c20panicRun} {
 					if (mode == c20err || mode == c20errWrap) && t.NumOut() == 0 {
 						continue
 					}
 					c20State.entered, c20State.mode = 0, mode
 					_, err, p := lx.Eval(ctx, types.List{Val: el}, ns)
 					r.Exec(1)
-					what := []string{"", "returned error", "panic(error)", "panic(string)", "panic(Go error wrapping a lisp error)", "returned Go error wrapping a lisp error", "panic(lisp error)", "panic(int)", "panic(lisp vector)"}[mode]
+					what := []string{"", "returned error", "panic(error)", "panic(string)", "panic(Go error wrapping a lisp error)", "returned Go error wrapping a lisp error", "panic(lisp error)", "panic(int)", "panic(lisp vector)", "runtime fault"}[mode]
 					if p != nil {
 						r.Violation("panic inside a bound function escapes: "+what, p.String())
 						break
@@ -443,6 +472,13 @@ func init() {
 						}
 						if !found {
 							r.Violation(what+": the panic value is no longer carried by the error", fmt.Sprintf("%T %v", err, err))
+							break
+						}
+					}
+					if mode == c20panicRun {
+						var re runtime.Error
+						if !errors.As(err, &re) {
+							r.Violation(what+": the runtime's error is no longer reachable with errors.As", fmt.Sprintf("%T %v", err, err))
 							break
 						}
 					}
